@@ -392,7 +392,7 @@ def check_component(case, stats, d):
                 raise Violation(f"loaded handler has empty-list std {b} instead of {a}")
     elif what == "labelgroup":
         g = case["group"]
-        obj = (LabelMergeGroup if g["kind"] == "merge" else LabelGroup)(list(g["labels"]), g["kind"] == "single")
+        obj = (LabelMergeGroup if g["kind"] in ("merge", "merge_single") else LabelGroup)(list(g["labels"]), g["kind"] in ("single", "merge_single"))
         loaded, _ = roundtrip(obj, type(obj), d, "g")
         probe = np.arange(0, 12).reshape(3, 4) % 8
         if sorted(obj.value_labels) != sorted(loaded.value_labels) or obj.single_instance != loaded.single_instance or not np.array_equal(obj(probe), loaded(probe)):
